@@ -608,17 +608,13 @@ func (ps *pathState) watchOverflow(fr *frame, op token.Token, x, y value) {
 	if fr.fn.Pkg == nil || !ps.w.prog.isTarget(fr.fn.Pkg) || (strings.HasPrefix(fr.fn.Name(), "zz") && !strings.HasPrefix(fr.fn.Name(), "zzProbe")) {
 		return
 	}
-	if !isSym(x) && !isSym(y) {
-		return
+	switch x.(type) {
+	case sym, int, int8, int16, int32, int64:
+	default:
+		return // not a signed integer operation
 	}
-	sx, ok := x.(sym)
-	k := types.Invalid
-	if ok {
-		k = sx.k
-	} else if sy, ok := y.(sym); ok {
-		k = sy.k
-	}
-	if k == types.Invalid || !ksigned(k) {
+	k := kindOf(x)
+	if !ksigned(k) {
 		return
 	}
 	c := ps.ctx
